@@ -70,7 +70,7 @@ def env_wf(model):
 
 
 def explore(ctx):
-    cases = []
+    cases = LC.CaseBuffer(ctx)
     import loadgen as G
     yaml, yatiml = L.setup()
     import itertools
